@@ -321,8 +321,40 @@ def _check_nested_predicate(seed, i):
     return {"i": i, "ok": True, "key": ("calculation", "nested-predicate", shape, n_in, n_out), "rel": True}
 
 
+def _check_repeat_itemset(seed, i):
+    """a select whose choices are the instances of a repeat (select_one ${name}), with a choice filter: the repeat's own path becomes the context
+    node, a question inside the repeat is reached from it, and a question OUTSIDE the repeat keeps its absolute path - also when its name
+    merely starts like the repeat's (rep and rep_min: defect F101)"""
+    rng = rng_for(seed, PID, "repeat-itemset", i)
+    rep = rng.choice(["person", "p", "hh"])
+    outside = rng.choice([rep + "_min_age", rep + "2", rep + "-x", rep + ".limit", "limit", "x" + rep])
+    inner = rng.choice(["age", rep + "_age"])
+    flt, want = rng.choice([
+        ("${%s} > ${%s}" % (inner, outside), "./%s>/data/%s" % (inner, outside)),
+        ("%s > ${%s}" % (inner, outside), "%s>/data/%s" % (inner, outside)),
+        ("${%s} > 3 and ${%s} = ${%s}" % (inner, outside, outside), "./%s>3and/data/%s=/data/%s" % (inner, outside, outside)),
+    ])
+    form = {"survey": [{"type": "integer", "name": outside, "label": "M"}, {"type": "begin repeat", "name": rep, "label": "R"}, {"type": "text", "name": "pname", "label": "N"},
+                       {"type": "integer", "name": inner, "label": "A"}, {"type": "end repeat"},
+                       {"type": "select_one ${pname}", "name": "pick", "label": "Pick", "choice_filter": flt}]}
+    st, r = xf.convert_form(forms.as_dict(form))
+    if st != "ok":
+        return {"i": i, "skip": "rejected: " + str(r)[:80]} if st == "pyxerr" else {"i": i, "skip": "crash (C17)"}
+    root = xf.lparse(r.xform)
+    its = [e.get("nodeset") for e in root.iter(xf.XF + "itemset")]
+    if len(its) != 1:
+        return {"i": i, "form": form, "what": f"{len(its)} itemsets for one select"}
+    got = "".join(its[0].split())
+    exp = f"/data/{rep}[{want}]"
+    if got != exp:
+        return {"i": i, "form": form, "what": f"choice filter {flt!r} over the repeat {rep}: the itemset reads {its[0]!r}, expected {exp!r} (white space aside)"}
+    return {"i": i, "ok": True, "key": ("choice_filter", "repeat-itemset", rep, outside, flt), "rel": True}
+
+
 def _check(args):
     seed, i = args
+    if i % 12 == 3:
+        return _check_repeat_itemset(seed, i)
     if i % 12 == 7:
         return _check_several_indexed(seed, i)
     if i % 12 == 9:
